@@ -16,7 +16,7 @@ TRUSTED = [
 ]
 ASSUMPTIONS = [
     'a re-fetch of a row is a query in the reading session that returns the object again (or the first access, or a lazy attribute load); '
-    'its columns arrive in attribute order; the reading session does not run queries while it has unflushed writes (that would flush first)',
+    'its columns arrive in attribute order; a query or commit() of the reading session while it has unflushed writes flushes first (Flush event: UPDATE with the optimistic criteria, read bits kept, written attributes gain one); writer actions are skipped while the reader holds the write lock',
     'identical queries are answered from the session\'s query-result cache without touching the database: the harness makes every re-fetch a distinct query',
     'collections: one collection of one object; batch prefetching of other objects\' collections is switched off (nplus1_threshold=1000); '
     'the reading session does not modify the collection itself',
@@ -41,6 +41,14 @@ SC_PROGS = [
     [['R', 0], ['W', 0, 5], ['R', 0]],
     [['W', 1, 5], ['R', 1], ['R', 0]],
     [['R', 2], ['W', 2, 5], ['R', 2]],
+    # own writes followed by a flush (query / commit() in the middle of the session) and later re-fetches: the flush keeps the read bits
+    [['R', 0], ['W', 1, 5], ['K'], ['F'], ['R', 0]],
+    [['R', 0], ['W', 1, 5], ['F'], ['R', 0], ['K'], ['F'], ['R', 0]],
+    [['R', 0], ['W', 0, 5], ['K'], ['F'], ['R', 0]],
+    [['R', 0], ['R', 1], ['W', 1, 6], ['K'], ['F'], ['R', 1], ['R', 0]],
+    [['R', 1], ['W', 2, 5], ['K'], ['R', 2], ['F'], ['R', 1], ['R', 2]],
+    [['W', 1, 5], ['K'], ['R', 0], ['F'], ['R', 0]],
+    [['R', 0], ['W', 1, 5], ['R', 3], ['K'], ['F'], ['R', 0], ['R', 3]],
 ]
 SC_ACTS = [['X', 0, 9], ['X', 1, 9], ['X', 2, 9], ['X', 3, 9], ['X', 0, None]]
 SC_DB0 = [1, 2, 3, 4]
@@ -81,12 +89,8 @@ def insertions(prog, acts, m):
 
 
 def valid_scalar(ops):
-    """no query / lazy load by the reader after an own write (it would flush and take the write lock)"""
-    wrote, lazy_loaded = False, False
-    for op in ops:
-        if op[0] == 'W': wrote = True
-        if wrote and (op[0] == 'F' or (op[0] == 'R' and op[1] == 3 and not lazy_loaded)): return False
-        if op[0] == 'R' and op[1] == 3: lazy_loaded = True
+    """every sequence is valid now: a query of the reader after an own write flushes first (Flush event); writer actions that would
+    block on the reader's open transaction are skipped by the driver"""
     return True
 
 
@@ -112,7 +116,7 @@ def gen_cases(ctx, deep=False):
         if k not in seen:
             seen.add(k); cases.append(c)
     for k, prog in enumerate(SC_PROGS):
-        for m in (0, 1) + ((2,) if big or k in (0, 1, 7) else ()):
+        for m in (0, 1) + ((2,) if big or k in (0, 1, 7, 10) else ()):
             for ops in insertions(prog, SC_ACTS, m):
                 if valid_scalar(ops): put({'kind': 'scalar', 'db0': SC_DB0, 'ops': ops})
     for k, prog in enumerate(O2M_PROGS):
@@ -170,6 +174,7 @@ def cnats(xs):
 
 def cev(e):
     if e[0] in ('Read', 'Write', 'Load'): return '(%s %d %s)' % (e[0], e[1], cval(e[2]))
+    if e[0] == 'Flush': return '(Flush [%s])' % '; '.join('(%d%%nat, %s)' % (a, cval(v)) for a, v in e[1])
     if e[0] in ('CObsCopy', 'CObsLen'): return '(%s %s)' % (e[0], cnats(e[1]))
     if e[0] == 'Copy': return '(copy_event %s %s)' % (vlib.cbool(e[1]), cnats(e[2]))
     if e[0] in ('CItemReload', 'CRevLoad'): return '(%s %d %s)' % (e[0], e[1], vlib.cbool(e[2]))
